@@ -1,4 +1,4 @@
-(* C17 — multiapp with the repair (App/Fixed.v): no stale chunk file and no stale tail ever exists,
+(* C17 — multiapp since 09014a8 (App/Fixed.v): no stale chunk file and no stale tail ever exists,
    so the refinement holds for every operation sequence. *)
 From V Require Import Base.Bytes App.Spec App.Single App.ListN App.SingleProofs App.SingleSim.
 From V Require Import App.Multi App.MultiProofs App.MultiRead App.MultiSim App.Fixed App.FixedProofs.
